@@ -1,7 +1,7 @@
 (** Correspondence for C16: problems reported by the real promql/series check (run through a real
     FailoverGroup against the engine-backed fake Prometheus) versus Model/Series.v on the same database. *)
 From Coq Require Import List String ZArith NArith Bool.
-From PintV Require Import Common.Bytes Common.GoTime Model.Range Model.RangeRef Model.Series.
+From PintV Require Import Common.Bytes Common.GoTime Model.Range Model.RangeRef Model.Series Model.SeriesSelectors.
 Import ListNotations.
 Open Scope string_scope.
 Open Scope Z_scope.
@@ -10,6 +10,8 @@ Record case := {
   c_id : N;
   c_db : db;
   c_others : list db;
+  c_expr : option sexpr;                       (* the rule expression as a term of Model/SeriesSelectors.v; None: outside the fragment *)
+  c_checked_pos : list N;                      (* positions of getNonFallbackSelectors(expr), in order *)
   c_now : Z;                                   (* harness clock just before Check was called *)
   c_after : Z;                                 (* harness clock just after Check returned (same minute as c_now) *)
   c_instant : list (option Z * Z);             (* every /api/v1/query request the main server got: its [time] parameter and
@@ -125,8 +127,23 @@ Definition range_ok (c : case) (qr : string * list (Z * Z * Z)) : bool :=
   | Some m => reqs_eqb m (snd qr)
   end.
 
+(** which selectors are checked: the model of getNonFallbackSelectors over the Source tree versus the real list *)
+Fixpoint nlist_eqb (a b : list N) : bool :=
+  match a, b with
+  | [], [] => true
+  | x :: r, y :: s => N.eqb x y && nlist_eqb r s
+  | _, _ => false
+  end.
+
+Definition selection_ok (c : case) : bool :=
+  match c_expr c with
+  | None => true
+  | Some e => nlist_eqb (checked e) (c_checked_pos c)
+  end.
+
 Definition check_case (c : case) : option string :=
   if negb (table_complete c) then Some "regexp-table-incomplete"
+  else if negb (selection_ok c) then Some "checked-selectors (getNonFallbackSelectors)"
   else if negb (forallb bare_ok (c_sels c)) then Some "stripLabels"
   else if negb (instant_ok c) then Some "instant-request-time-parameter"
   else if negb (forallb (range_ok c) (c_range c)) then Some "range-request-parameters"
